@@ -48,7 +48,8 @@ ASSUMPTIONS = [
     "molecules off the 6-molecule alphabet and batches larger than 3 are not explored",
 ]
 
-MOLS = ["CH4", "H2O", "OH-", "NH4+", "H2CO", "CH3"]
+# N2 has the orbital count of CH4/NH4+ (8) with another heavy/hydrogen split: the pack/unpack fast path must not merge them
+MOLS = ["CH4", "H2O", "OH-", "NH4+", "H2CO", "CH3", "N2"]
 KSA = [3, {"max_rank": 2, "err_threshold": 0.0, "T_el": 1500}]
 SOLVERS = {
     "fixed0": [0, 0.0],
@@ -119,8 +120,7 @@ def _neighbour_density(case):
         _NB_CACHE.clear()  # keep one entry: cases are ordered so that a batch's cases are adjacent
         p = sp.make_params(case["method"], "adaptive", 1e-10, uhf=_uhf(case["batch"]))
         o = sp.single_point(_geom(case["batch"], case["seed"], displaced=True), p, names=["dm"], do_force=False)
-        if o["notconverged"].any():
-            raise RuntimeError("harness: neighbour density did not converge")
+        # any density is a legitimate start density; an unconverged one (possible on a broken tree) is used as it is
         _NB_CACHE[key] = o["dm"]
     return _NB_CACHE[key].copy()
 
